@@ -116,6 +116,9 @@ package core
 // a missing descriptor stays recognisable as such to the caller (whatever is wrapped around it), because
 // getBundleAsync's skip of half-written bundles tests errors.Is(err, ErrNotExists)
 //@   ensures [not-found-stays-not-found] ge_set && ge != nil && errIs(ge, iface(storagestatus.ErrNotExists)) ==> errIs(ret1, iface(storagestatus.ErrNotExists))
+// ... and only a missing descriptor reads as missing: a failed read (transient fault) must not be taken for
+// "does not exist", or repository-wide operations would silently skip that bundle
+//@   ensures [a-failed-read-is-not-a-missing-descriptor] ge_set && ge != nil && !errIs(ge, iface(storagestatus.ErrNotExists)) ==> !errIs(ret1, iface(storagestatus.ErrNotExists))
 
 // a key without descriptor (upload in progress or interrupted) is skipped, not reported: neither as a
 // bundle nor as a listing error
@@ -590,6 +593,7 @@ package core
 //@   requires store != nil
 //@   call Get#1 bind ge = $ret1
 //@   ensures [propagate] ge_set && ge != nil ==> ret1 != nil
+//@   ensures [a-failed-read-is-not-a-missing-descriptor] ge_set && ge != nil && !errIs(ge, iface(storagestatus.ErrNotExists)) ==> !errIs(ret1, iface(storagestatus.ErrNotExists))
 //@   ensures [not-found-stays-not-found] ge_set && ge != nil && errIs(ge, iface(storagestatus.ErrNotExists)) ==> errIs(ret1, iface(storagestatus.ErrNotExists))
 
 //@ func getDiamondAsync
@@ -605,6 +609,7 @@ package core
 //@   requires store != nil
 //@   call Get#1 bind ge = $ret1
 //@   ensures [propagate] ge_set && ge != nil ==> ret1 != nil
+//@   ensures [a-failed-read-is-not-a-missing-descriptor] ge_set && ge != nil && !errIs(ge, iface(storagestatus.ErrNotExists)) ==> !errIs(ret1, iface(storagestatus.ErrNotExists))
 //@   ensures [not-found-stays-not-found] ge_set && ge != nil && errIs(ge, iface(storagestatus.ErrNotExists)) ==> errIs(ret1, iface(storagestatus.ErrNotExists))
 
 //@ func getSplitAsync
@@ -731,3 +736,23 @@ package core
 //@   call fetchLabelBatch#1 assert [of-these-keys] $keys == keyBatch.keys && $repo == repo
 //@   call fetchLabelBatch#1 bind fetched = $ret0
 //@   send batchChan#4 assert [the-batch-just-fetched] fetched_set && $val.labels == fetched && $val.err == nil
+
+// ---- commit: the splits merged are those complete when THIS commit starts (C12) ----------------------
+// every call walks the split descriptors in the store (no list remembered from an earlier attempt) and
+// keeps exactly the completed ones
+//@ func (*Diamond).collectSplits
+//@   requires d != nil
+//@   call ListSplitsApply#1 assert [of-this-diamond] $0 == d.RepoID && $1 == d.DiamondDescriptor.DiamondID && $2 == d.contextStores
+//@   call ListSplitsApply#1 bind listed = $ret0
+//@   ensures [walks-the-store-every-time] listed_set
+//@   ensures [propagate] listed_set && listed != nil ==> ret1 != nil
+//@ func (*Diamond).collectSplits$1
+//@   call append#1 assert [completed-splits-only] sd.State == model.SplitDone && $1[0] == sd
+
+// ---- index chunks: a chunk holds the first maxKeys keys NOT yet uploaded (C13, C14) -------------------
+// keys already marked as uploaded are skipped and do not count against the size of the chunk (otherwise
+// the second chunk would see only marked keys, upload nothing, and the build would end with a truncated index)
+//@ func (*dbReader).iterateKV$1
+//@   loop 1 step [marked-keys-do-not-count] len(val) > 0 ==> iterated == prev(iterated)
+//@   loop 1 step [each-offered-key-counts-once] len(val) == 0 ==> iterated == prev(iterated) + 1
+//@   send r.out#1 assert [an-unmarked-key-within-the-chunk] $val == key && len(val) == 0 && iterated <= r.maxKeys
